@@ -29,6 +29,7 @@ import (
 	"sort"
 	"strings"
 	"sync"
+	"time"
 
 	"com.tuntun.rangers/node/src/common"
 	"com.tuntun.rangers/node/src/common/ed25519"
@@ -568,9 +569,95 @@ func exactStakeRatio(height, workingMiners, totalStake, p025Block uint64) (ratio
 	return new(big.Rat).SetFrac(num, new(big.Int).SetUint64(totalStake)), difficulty, true
 }
 
-var qualMu sync.Mutex
-var aboveMaxByStake = map[uint64]int{}
-var aboveMaxMinimal *Case
+// qn > MaxQN observations are collected and emitted by flushAboveMax so that the
+// (at most three) recorded witnesses are the minimal ones, independent of the
+// order in which the parallel workers ran.
+type aboveMaxObs struct {
+	c     Case
+	what  string
+	dist  *big.Int // top threshold - value
+	srGT1 bool
+	exact bool
+}
+
+var (
+	qualMu   sync.Mutex
+	aboveMax []aboveMaxObs
+)
+
+func flushAboveMax(r *mon.Run) {
+	qualMu.Lock()
+	obs := aboveMax
+	aboveMax = nil
+	qualMu.Unlock()
+	if len(obs) == 0 {
+		return
+	}
+	sort.Slice(obs, func(i, j int) bool {
+		a, b := obs[i].c, obs[j].c
+		if a.TotalStake != b.TotalStake {
+			return a.TotalStake < b.TotalStake
+		}
+		if a.Height != b.Height {
+			return a.Height < b.Height
+		}
+		if a.WorkingMiners != b.WorkingMiners {
+			return a.WorkingMiners < b.WorkingMiners
+		}
+		return bytes.Compare(a.Proof, b.Proof) > 0 // larger value (closer to the threshold) first
+	})
+	first := []int{}
+	pick := func(f func(o aboveMaxObs) bool, better func(a, b aboveMaxObs) bool) {
+		best := -1
+		for i, o := range obs {
+			if !f(o) {
+				continue
+			}
+			if best < 0 || (better != nil && better(o, obs[best])) {
+				best = i
+			}
+		}
+		if best >= 0 {
+			for _, k := range first {
+				if k == best {
+					return
+				}
+			}
+			first = append(first, best)
+		}
+	}
+	// 1. smallest total stake with stakeRatio <= 1: value one below the top threshold (float rounding)
+	pick(func(o aboveMaxObs) bool { return !o.srGT1 && o.exact && o.dist.Cmp(big.NewInt(2)) <= 0 }, nil)
+	// 2. widest window: largest distance below the top threshold that still yields MaxQN+1
+	pick(func(o aboveMaxObs) bool { return !o.srGT1 && o.exact }, func(a, b aboveMaxObs) bool { return a.dist.Cmp(b.dist) > 0 })
+	// 3. stakeRatio > 1 and value 2^256-1: qn = MaxQN+1 even in exact arithmetic (no clamp)
+	pick(func(o aboveMaxObs) bool { return o.srGT1 && o.dist.Sign() == 0 }, nil)
+	emitted := map[int]bool{}
+	for _, k := range first {
+		emitted[k] = true
+		r.Violation("C16:qn:above-max", obs[k].what, obs[k].c)
+	}
+	byStake := map[uint64]int{}
+	var stakes []uint64
+	widest := new(big.Int)
+	for i, o := range obs {
+		if !emitted[i] {
+			r.Violation("C16:qn:above-max", o.what, o.c)
+		}
+		if byStake[o.c.TotalStake] == 0 {
+			stakes = append(stakes, o.c.TotalStake)
+		}
+		byStake[o.c.TotalStake]++
+		if !o.srGT1 && o.dist.Cmp(widest) > 0 {
+			widest = o.dist
+		}
+	}
+	var ss []string
+	for _, k := range stakes {
+		ss = append(ss, fmt.Sprintf("%d:%d", k, byStake[k]))
+	}
+	r.Note("ok=true with qn > MaxQN seen for totalStake:count = %s; largest probed distance below the top threshold that still gave MaxQN+1: about 2^%d", strings.Join(ss, " "), widest.BitLen()-1)
+}
 
 // judgeQual compares one observed (ok, qn) with the exact oracle. value is the
 // integer the first 32 bytes of the (padded) proof denote.
@@ -613,14 +700,17 @@ func judgeQual(r *mon.Run, c Case, ok bool, qn uint64, value *big.Int) {
 	r.Count("qual_qualified", 1)
 	if qn > maxQN {
 		r.Count("qual_qn_above_max", 1)
-		qualMu.Lock()
-		aboveMaxByStake[c.TotalStake]++
-		if aboveMaxMinimal == nil || c.TotalStake < aboveMaxMinimal.TotalStake {
-			cc := c
-			aboveMaxMinimal = &cc
+		effTop := new(big.Rat).Set(sr)
+		if effTop.Cmp(big.NewRat(1, 1)) > 0 {
+			effTop.SetInt64(1)
 		}
+		top := new(big.Int).Mul(effTop.Num(), max256)
+		top.Quo(top, effTop.Denom())
+		o := aboveMaxObs{c: c, dist: new(big.Int).Sub(top, value), srGT1: sr.Cmp(big.NewRat(1, 1)) > 0, exact: exact,
+			what: fmt.Sprintf("validateProve ok=true with qn=%d > MaxQN=%d (total stake %d, height %d, working miners %d, stake ratio %s, value %s = %s)", qn, maxQN, c.TotalStake, c.Height, c.WorkingMiners, sr.RatString(), value.String(), c.Near)}
+		qualMu.Lock()
+		aboveMax = append(aboveMax, o)
 		qualMu.Unlock()
-		r.Violation("C16:qn:above-max", fmt.Sprintf("validateProve ok=true with qn=%d > MaxQN=%d (total stake %d, stake ratio %s, value %s = %s)", qn, maxQN, c.TotalStake, sr.RatString(), value.String(), c.Near), c)
 		return
 	}
 	if qn < 1 {
@@ -837,6 +927,7 @@ func replay(r *mon.Run, path string) {
 		fmt.Println("MACHINERY: unknown case kind in replay:", c.Kind)
 		os.Exit(2)
 	}
+	flushAboveMax(r)
 	cleanup()
 	r.Finish(mon.Coverage{Evaluations: 2, DistinctNontrivial: 2, Rule: "replay of one recorded case"})
 }
@@ -875,8 +966,8 @@ func main() {
 	// ---- A. honest proofs, bit flips, crafted proofs over seeded keys/messages
 	nKeys := r.Pick(2000, 100000)
 	nMsgs := 3
-	fullFlipPairs := r.Pick(240, 2000)
-	sampledFlips := r.Pick(100, 160)
+	fullFlipPairs := r.Pick(200, 2000)
+	sampledFlips := r.Pick(60, 80)
 	forgePairs := r.Pick(400, 6000)
 	type pair struct{ i, j int }
 	pairs := make([]pair, 0, nKeys*nMsgs)
@@ -939,6 +1030,7 @@ func main() {
 		}
 	})
 
+	phase("A honest/flip/forge")
 	// ---- B. transport: search for proofs starting with 1, 2 (3) zero bytes
 	wantZeros := r.Pick(2, 3)
 	hits := searchZeroLead(r, wantZeros, r.Pick(2, 1), r.Pick(12, 1200))
@@ -949,6 +1041,7 @@ func main() {
 			nDeep++
 		}
 	}
+	phase("B search")
 	r.Count("zero_lead_hits", int64(len(hits)))
 	mon.Parallel(len(hits), workers, func(n int) {
 		h := hits[n]
@@ -985,6 +1078,7 @@ func main() {
 		}
 	}
 
+	phase("B zero-lead proofs")
 	// ---- C. qualification rule
 	stakes := []uint64{0, 1, 2, 3, 14, 15, 19, 20, 24, 25, 26, 100, 2000, 40000, 1000000, 1 << 53, 1<<53 + 1, 1 << 63}
 	if r.Thorough() {
@@ -1024,25 +1118,15 @@ func main() {
 			}
 		}
 	}
+	phase("C case generation")
 	r.Count("qual_configurations", int64(cfg))
 	mon.Parallel(len(qcases), workers, func(i int) {
 		c := qcases[i]
 		runQual(r, c)
 		r.DistinctHash("qual", hash64(c.Proof[:32], u64(c.Height), u64(c.WorkingMiners), u64(c.TotalStake)))
 	})
-	if len(aboveMaxByStake) > 0 {
-		var ss []string
-		var ks []uint64
-		for k := range aboveMaxByStake {
-			ks = append(ks, k)
-		}
-		sort.Slice(ks, func(i, j int) bool { return ks[i] < ks[j] })
-		for _, k := range ks {
-			ss = append(ss, fmt.Sprintf("%d:%d", k, aboveMaxByStake[k]))
-		}
-		r.Note("qn > MaxQN with ok=true seen for totalStake:count = %s; smallest-stake witness: totalStake=%d height=%d workingMiners=%d value=%x (%s)",
-			strings.Join(ss, " "), aboveMaxMinimal.TotalStake, aboveMaxMinimal.Height, aboveMaxMinimal.WorkingMiners, []byte(aboveMaxMinimal.Proof[:32]), aboveMaxMinimal.Near)
-	}
+	phase("C qualification")
+	flushAboveMax(r)
 
 	// samples
 	if len(pairs) > 0 {
@@ -1089,6 +1173,16 @@ func main() {
 		},
 		MustObserve: must,
 	})
+}
+
+var phaseT = time.Now()
+
+// phase prints section timings when VERIF_TIMING is set (diagnostics only).
+func phase(name string) {
+	if os.Getenv("VERIF_TIMING") != "" {
+		fmt.Fprintf(os.Stderr, "timing: %-28s %.1fs\n", name, time.Since(phaseT).Seconds())
+	}
+	phaseT = time.Now()
 }
 
 func u64(v uint64) []byte {
